@@ -878,7 +878,7 @@ def _schedule(prop, tier, seed):
         if not quick:
             cases += seeded_cases("c01lf", seed, 10, "lf") + seeded_cases("c01ll", seed, 10, "ll")
         else:
-            cases += seeded_cases("c01lf", seed, 2, "lf") + seeded_cases("c01ll", seed, 2, "ll")
+            cases += seeded_cases("c01lf", seed, 5, "lf") + seeded_cases("c01ll", seed, 5, "ll")
 
         def mk(facts):
             hs = []
@@ -890,7 +890,7 @@ def _schedule(prop, tier, seed):
             return hs
         return cases, mk
     if prop == "C02":
-        cases = std_core() + seeded_cases("c02", seed, 2 if quick else 12, "std")
+        cases = std_core() + seeded_cases("c02", seed, 6 if quick else 12, "std")
 
         def mk(facts):
             hs = []
@@ -905,7 +905,7 @@ def _schedule(prop, tier, seed):
         return cases, mk
     if prop == "C03":
         cases = [Case(c.name.replace("c02", "c03"), c.pats, mk="std") for c in std_core()]
-        cases += seeded_cases("c03", seed, 2 if quick else 10, "std")
+        cases += seeded_cases("c03", seed, 6 if quick else 10, "std")
         # case-insensitive build with the empty pattern (start-state matches copied once per child: seeded C03c)
         cases.append(Case("c03_ci_empty", ["", "aB"], mk="std", ci=True))
 
@@ -1547,9 +1547,8 @@ def _schedule(prop, tier, seed):
                     Case("c11std_pf_s2", ["zq", "zj"], mk="std", ci=True, pf=True),
                     Case("c11std_pf_r2b", ["aZ", "bZ"], mk="std", ci=True, pf=True)]
         cases += pf_cases
-        if not quick:
-            for mkk in ("std", "lf", "ll"):
-                cases += seeded_cases("c11" + mkk, seed, 5, mkk, ci=True)
+        for mkk in ("std", "lf", "ll"):
+            cases += seeded_cases("c11" + mkk, seed, (2 if mkk != "ll" else 1) if quick else 5, mkk, ci=True)
 
         def mk(facts):
             hs = []
